@@ -15,8 +15,10 @@ GivenUpTo(calls, n) == [i \in 1..n |-> ArgOf(calls[i])]
 RECURSIVE HolderAfter(_, _)
 HolderAfter(calls, n) == IF n = 0 THEN EmptyHolder ELSE Apply(HolderAfter(calls, n - 1), ArgOf(calls[n]))
 
-KwOf(stmt) == CASE stmt = "having" -> "HAVING" [] stmt = "join" -> "ON" [] OTHER -> "WHERE"
-SupportedPlace(B, stmt) == ~(stmt = "conflict" /\ B = "mysql")
+\* the keyword that introduces the conditions of a place; MySQL turns UPDATE .. FROM into UPDATE .. JOIN .. ON
+KwOfB(B, stmt) == CASE stmt \in {"having", "having_plain", "having_take"} -> "HAVING" [] stmt = "join" -> "ON"
+                    [] stmt = "update_from2" -> (IF B = "mysql" THEN "ON" ELSE "WHERE") [] OTHER -> "WHERE"
+SupportedPlace(B, stmt) == ~(stmt \in {"conflict", "conflict_target"} /\ B = "mysql")
 RECURSIVE AllSupported(_, _)
 AllSupported(B, given) == \A i \in DOMAIN given : Supported(B, given[i])
 
@@ -25,8 +27,11 @@ StepKeys(r, s) ==
       given == IF single THEN <<ArgOf(r.calls[s.step])>> ELSE GivenUpTo(r.calls, s.step)
   IN UNION { IF ~SupportedPlace(B, r.stmt) \/ ~AllSupported(B, given) THEN {}
              ELSE IF IsPanic(s.obs[B]) THEN {"C06/" \o r.stmt \o "/" \o B \o "/panic"}
-             ELSE LET pred == IF r.stmt = "case" THEN CasePredicateOf(B, s.obs[B].r) ELSE PredicateOf(B, s.obs[B].r, KwOf(r.stmt))
-                  IN {"C06/" \o r.stmt \o "/" \o B \o "/" \o x : x \in Reasons(B, pred, given)}
+             ELSE LET pred == IF r.stmt = "case" THEN CasePredicateOf(B, s.obs[B].r)
+                              ELSE IF r.stmt \in {"conflict", "conflict_target"} THEN ConflictPredicateOf(B, s.obs[B].r, r.stmt = "conflict_target")
+                              ELSE PredicateOf(B, s.obs[B].r, KwOfB(B, r.stmt))
+                  IN {"C06/" \o r.stmt \o "/" \o B \o "/" \o x : x \in Reasons(B, pred, given)
+                                                                     \cup (IF "stray" \in DOMAIN pred /\ pred.stray THEN {"condition_in_a_clause_that_was_given_none"} ELSE {})}
              : B \in Backends }
 
 \* exactness: the clause's tokens are those of the impl-level model's rendering of the model's holder
@@ -34,10 +39,10 @@ StepExact(r, s) ==
   LET single == "single" \in DOMAIN s /\ s.single
       holder == IF single THEN Apply(EmptyHolder, ArgOf(r.calls[s.step])) ELSE HolderAfter(r.calls, s.step)
   IN \A B \in Backends :
-       IsPanic(s.obs[B]) \/ r.stmt \in {"case", "conflict"} \/ ~SupportedPlace(B, r.stmt) \/
+       IsPanic(s.obs[B]) \/ r.stmt \in {"case", "conflict", "conflict_target"} \/ ~SupportedPlace(B, r.stmt) \/
        LET T == Norm(Lex(B, s.obs[B].r))
            D == Depths(T)
-           i == FindKwIn(T, D, {KwOf(r.stmt)}, 1, 0)
+           i == FindKwIn(T, D, {KwOfB(B, r.stmt)}, 1, 0)
        IN IF holder.k = "empty" THEN i = 0
           ELSE i # 0 /\ LET e == ClauseEnd(T, D, i)
                             M == Lex(B, RenderI(B, NoOpt, CondToExpr(holder)))
